@@ -1,0 +1,7 @@
+//go:build !verif
+
+package sftp
+
+func vhook(point string, a, b uint64) {}
+
+func vhookPage(point string, order uint32, page []byte) {}
